@@ -4,14 +4,14 @@ from vcommon import *
 import vrt_runner
 
 EXTRACT = os.path.join(COQ, "_extract")
-ML_ORDER = ["BinNums", "Datatypes", "PeanoNat", "BinPos", "BinNat", "BinInt", "List", "CSem", "Consts", "Sites",
-            "MuModel", "MuReplay"]
+ML_BASE = ["BinNums", "Datatypes", "PeanoNat", "BinPos", "BinNat", "BinInt", "List", "CSem", "Consts", "Sites"]
+REPLAYERS = {"mu_replay": ["MuModel", "MuReplay"], "sem_replay": ["SemModel", "SemReplay"]}
 
 
-def build_replayer():
-    """Extract the model (as regenerated for this tree) and compile replay/mu_replay.ml.  Returns (exe, err)."""
+def build_replayer(name="mu_replay"):
+    """Extract the models (as regenerated for this tree) and compile replay/<name>.ml.  Returns (exe, err)."""
     with Lock("coq"):
-        b = coq_build(["Model/MuReplay.vo"])
+        b = coq_build(["Model/MuReplay.vo", "Model/SemReplay.vo"])
         if not b["ok"]:
             return None, "model does not build: " + b["log"][-800:]
         if os.path.isdir(EXTRACT):
@@ -21,15 +21,15 @@ def build_replayer():
                           cwd=COQ, timeout=300)
         if rc != 0:
             return None, "extraction failed: " + (err or out)[-800:]
-        shutil.copy(os.path.join(VERIF, "replay", "mu_replay.ml"), EXTRACT)
+        shutil.copy(os.path.join(VERIF, "replay", name + ".ml"), EXTRACT)
         files = []
-        for m in ML_ORDER:
+        for m in ML_BASE + REPLAYERS[name]:
             files += [m + ".mli", m + ".ml"]
         rc, out, err = sh(["ocamlfind", "ocamlopt", "-package", "str", "-linkpkg", "-w", "-a"] + files +
-                          ["mu_replay.ml", "-o", "mu_replay"], cwd=EXTRACT, timeout=300)
+                          [name + ".ml", "-o", name], cwd=EXTRACT, timeout=300)
         if rc != 0:
             return None, "replayer does not compile: " + (err or out)[-800:]
-        return os.path.join(EXTRACT, "mu_replay"), None
+        return os.path.join(EXTRACT, name), None
 
 
 def replay_one(replayer, exe, seed, env_extra, tdir):
@@ -68,7 +68,7 @@ def replay_summary(results):
             steps += int(m.group(1))
             for kv in m.group(4).split(","):
                 if ":" in kv:
-                    k, v = kv.split(":")
+                    k, v = kv.rsplit(":", 1)
                     sites[k] = sites.get(k, 0) + int(v)
         elif r["run"].get("prop") is None:
             mism.append({"seed": r["seed"], "replay": r.get("replay")})
